@@ -452,6 +452,8 @@ Fixpoint derive_f (fuel : nat) (e : expr) (st : symtab) {struct fuel} : shape * 
              if is_err sh then st2
              else match ls with
                   | SHole _ =>
+                    (* `env` is the process environment: no shape is recorded for it (fix a44015f) *)
+                    if bytes_eqb x (b "env") then st2 else
                     (* infer_container_shape_from_dot *)
                     let inferred := match r with
                                     | ESym k | EStr k => STuple [(k, SAny)]
